@@ -16,3 +16,4 @@ pub mod gen_toy;
 pub mod gen_zoo;
 pub mod util;
 pub mod pairing;
+pub mod h2c;
